@@ -415,11 +415,23 @@ def random_program(rng, pkg, nfn=None, with_loads=False):
 
             if gf["data_path"] is not None:
                 f["stmts"].append(gen.s_call(g, []))
+                if rng.random() < 0.3:
+                    # read the path that was just produced, in one of the syntactic positions
+                    f["stmts"].append(gen.s_load(gf["data_path"], rng.choice(gen.LOAD_FORMS)))
             elif g not in kept_callees and rng.random() < 0.5 and not _called_plain(p, g):
                 kept_callees.add(g)
                 f["stmts"].append(gen.s_keep(new_path(), g, mk_args(True), layout=rng.choice(["one", "one", "multi", "multi2"]), path_style=rng.choice(["lit", "lit", "var", "pathlib"])))
             elif g not in kept_callees:
                 f["stmts"].append(gen.s_call(g, mk_args(True)))
+        if rng.random() < 0.15:
+            # a class whose method is used by this function (optionally reading a variable / calling a leaf function)
+            leafs = [g for g in fids if not p["fns"][g]["params"] and p["fns"][g]["data_path"] is None and not _has_keep_site(p, g) and g not in kept_callees and mods.index(p["fns"][g]["module"]) <= mi]
+            vv = [v for v in vids if mods.index(p["vars"][v]["module"]) <= mi and p["vars"][v]["module"] == m]
+            cid = gen.add_cls(p, m, "RK%d" % i, const=200 + i, var=rng.choice(vv) if vv and rng.random() < 0.5 else None, calls=rng.choice(leafs) if leafs and rng.random() < 0.5 else None)
+            # the class must be defined before the function that uses it
+            p["order"][m].remove(("cls", cid))
+            p["order"][m].insert(p["order"][m].index(("fn", fid)), ("cls", cid))
+            f["stmts"].append(gen.s_method(cid, rng.choice(["1", "'m'", "None"])))
         fids.append(fid)
     # entry: a fresh function calling the last few roots
     m = mods[-1]
@@ -456,6 +468,9 @@ def _called_plain(p, g):
         for s in f["stmts"]:
             if s["k"] == "call" and s["fn"] == g:
                 return True
+    for c in p.get("classes", {}).values():
+        if c.get("calls") == g:
+            return True
     return False
 
 
@@ -464,6 +479,9 @@ def _referenced(p, g):
         for s in f["stmts"]:
             if s.get("fn") == g:
                 return True
+    for c in p.get("classes", {}).values():
+        if c.get("calls") == g:
+            return True
     return False
 
 
@@ -489,6 +507,8 @@ def random_edit(rng, p, tag):
 
 def random_case(rng, idx, store, nsteps=None):
     p0 = random_program(rng, "rp%d" % idx)
+    if store == "noop" and any(s["k"] == "load" for f in p0["fns"].values() for s in f["stmts"]):
+        store = "local"  # the noop store cannot serve paths (its documentation says so): no loads on it
     versions = [p0]
     descs = {}
     hist = [{"v": 0, "new_process": True, "style": "eval"}]
